@@ -234,8 +234,8 @@ Definition fill_of_cty (t : cty) : val :=
   | Long => VI (-2147483647)            (* `long` has no netCDF type of its own: the library documents NC_FILL_INT *)
   | Ulong => VI 4294967295
   | Longlong => VI (-9223372036854775806) | Ulonglong => VI 18446744073709551614
-  | Float => VF false 15728640 99       (* 9.9692099683868690e+36 = 15 * 2^119 *)
-  | Double => VF false 15728640 99
+  | Float => VF false 15728640 99            (* 9.9692099683868690e+36f = 15 * 2^119 *)
+  | Double => VF false 8444249301319680 70   (* 9.9692099683868690e+36  = 15 * 2^119 *)
   end.
 Definition spec_default_fill (x : xty) : val := fill_of_cty (xcty x).
 
@@ -250,7 +250,8 @@ Definition spec_in_range (dst : cty) (v : val) : bool :=
   | VF n m e =>
       if is_float dst then
         (* - MAX <= value <= MAX *)
-        match dy_cmp m e (fmax_m dst) (femax dst) with Gt => false | _ => true end
+        (match dy_cmp (smant n m) e (- fmax_m dst) (femax dst) with Lt => false | _ => true end) &&
+        (match dy_cmp (smant n m) e (fmax_m dst) (femax dst) with Gt => false | _ => true end)
       else
         (match dy_cmp (smant n m) e (imin dst) 0 with Lt => false | _ => true end) &&
         (match dy_cmp (smant n m) e (imax dst) 0 with Gt => false | _ => true end)
